@@ -262,6 +262,24 @@ def rule_r7(ctx):
                 ctx.r.ok(rid, "%s is latin-1 decoded verbatim" % names[i], f.loc(e))
             else:
                 ctx.r.violation(rid, key_of(f, None, "component-transformed::" + names[i]), "%s is returned as %s" % (names[i], t), f.loc(e))
+    # the generic splitter is urlsplit, bound positionally to the five components (urlparse would cut ';params' off the
+    # last path segment; any other arity drops or shifts a component)
+    splits = [n for n in ast.walk(f.node) if isinstance(n, ast.Assign) and isinstance(n.value, ast.Call) and (dotted(n.value.func) or "").split(".")[-1] in ("urlsplit", "urlparse", "urldefrag", "SplitResult", "ParseResult")]
+    if not splits:
+        ctx.r.violation(rid, key_of(f, None, "no-urlsplit"), "split_uri no longer uses urlsplit for targets that do not start with //", f.loc())
+    for n in splits:
+        fn_ = (dotted(n.value.func) or "").split(".")[-1]
+        tg = n.targets[0]
+        if isinstance(tg, ast.Name):
+            # bound to a local first and unpacked afterwards
+            un = [m for m in ast.walk(f.node) if isinstance(m, ast.Assign) and isinstance(m.value, ast.Name) and m.value.id == tg.id and isinstance(m.targets[0], ast.Tuple)]
+            if len(un) == 1:
+                tg = un[0].targets[0]
+        if fn_ == "urlsplit" and isinstance(tg, ast.Tuple) and [dotted(e) for e in tg.elts] == names and len(n.value.args) == 1 and not n.value.keywords:
+            ctx.r.ok(rid, "urlsplit(target) bound to (scheme, netloc, path, query, fragment)", f.loc(n))
+        else:
+            ctx.r.violation(rid, key_of(f, None, "splitter::" + fn_), "the target is split by %s into %s: the path component no longer carries everything between authority and '?' (e.g. ';params' of the last segment are cut off)"
+                            % (norm(n.value)[:40], norm(tg)[:60]), f.loc(n))
     # no unquote before the split
     for c in ast.walk(f.node):
         if isinstance(c, ast.Call) and "unquote" in (dotted(c.func) or "") and not any(c is e or any(c is x for x in ast.walk(e)) for e in rets[0].value.elts):
